@@ -21,7 +21,8 @@ LEVEL_TEXT = ("Decides clauses C16-a..d: every field of the derive's ContainerAt
               'character tests -- upper-case and not the first character -- and pushes the lower-cased character unconditionally; no name taken from an explicit '
               '`rename` attribute reaches a container case conversion (reaching definitions of the name variable), so an explicit rename wins as in serde; on the '
               'camelCase arm of the field converter the head of the PascalCase form is what gets lower-cased (`_id` -> `Id` -> `id`), on that of the variant '
-              'converter the head of the name. Decides these clauses, not agreement of the derived schema with serde_derive for all type definitions.')
+              'converter the head of the name; in the PascalCase loop the pending-capital flag is cleared on every path of an iteration that found it set (whatever '
+              'character follows the `_` takes the capital). Decides these clauses, not agreement of the derived schema with serde_derive for all type definitions.')
 
 ATTR = "ohkami_macros::openapi::attributes::serde::attributes::"
 # serde attributes that do not change the serialized shape / the set of accepted documents described by the schema
@@ -50,6 +51,7 @@ def run(ck, progs):
         ck.guard("C16-b REACH naming", lambda: c16b(ck, prog))
         ck.guard("C16-c DECISION word boundary", lambda: c16c(ck, prog))
         ck.guard("C16-e DECISION camelCase head", lambda: c16e(ck, prog))
+        ck.guard("C16-f MUSTPASS PascalCase flag", lambda: c16f(ck, prog))
         ck.guard("C16-d ORDER rename precedence", lambda: c16d(ck, prog))
     ck.config = None
 
@@ -217,6 +219,47 @@ def c16e(ck, prog):
               "" if ok else "on the camelCase arm of Case::%s no lower-casing of the head of %s is found (lower-casings on the arm: %r): serde writes %s, "
               "so a field like `_id` / `Name` is named differently in the schema and on the wire" % (nm, "the PascalCase form" if nm == "apply_to_field" else "the name", descs, want),
               how="%s: %s" % (want, good[0][:70] if good else ""))
+
+
+def c16f(ck, prog):
+    """serde's PascalCase for fields: `_` is dropped and capitalises the *next character, whatever it is* (`pos_3d` -> `Pos3d`:
+    the `3` takes the capital, the `d` stays). In the converter's loop the pending-capital flag must therefore be cleared
+    on every path of an iteration that found it set and did not see another `_` -- not only when the character happens
+    to be a lower-case letter."""
+    R = "C16-f MUSTPASS PascalCase flag"
+    from .lib.bound import natural_loops
+    f = prog.one(r"serde::case::Case::apply_to_field$")
+    loops = natural_loops(f)
+    n = 0
+    for l, defs in f.defs().items():
+        if f.locals[l] != "bool" or l <= f.argc:
+            continue
+        consts = [(d[0], str(d[3]["r"][1][1].get("v"))) for d in defs if d[2] == "assign" and not d[3]["p"][1] and d[3]["r"][0] == "use" and d[3]["r"][1][0] == "k"]
+        sets = [bb for bb, v in consts if v == "1" and any(bb in body for body in loops.values())]
+        clears = [bb for bb, v in consts if v == "0" and any(bb in body for body in loops.values())]
+        if not sets or not clears:
+            continue
+        # the loop that sets and clears the flag
+        h = min([hh for hh, body in loops.items() if sets[0] in body], key=lambda hh: len(loops[hh]))
+        body = loops[h]
+        for sb in sorted(body):
+            t = f.term(sb)
+            if t["k"] != "switch" or t.get("dty") != "bool" or t["discr"][0] not in ("c", "m"):
+                continue
+            st = f.origin(t["discr"])
+            if not (st and st[-1][0] == "multi" and st[-1][1] == l and not st[-1][2]):
+                continue
+            n += 1
+            for tb, lab in f.succ(sb):
+                if lab == 0 or tb not in body:
+                    continue
+                # from the edge `flag is set`: back to the loop header without clearing it (or setting it again for a new `_`)?
+                reach = f.reachable_from(tb, avoid=tuple(set(clears) | set(sets)))
+                ok = h not in reach
+                ck.ob(R, "flag-cleared-by-the-next-character", ok, f.loc(t.get("sp")),
+                      "" if ok else "in the PascalCase loop an iteration that finds the capitalise flag set can end without clearing it (only some characters take the capital): `pos_3d` becomes `Pos3D` where serde writes `Pos3d`, "
+                      "so the schema names a property serde never writes", how="every path from `flag set` back to the loop head passes `flag = false` (or `flag = true` for another `_`)")
+    ck.floor(R, "tests of the capitalise flag inside the conversion loop", n, 1)
 
 
 def derives_from(f, rvalue, rx, seen, depth=5):
